@@ -368,7 +368,7 @@ fn report(ctx: &mut Ctx, sig: String, what: String, detail: J) {
 
 pub fn run(ctx: &mut Ctx) {
     let mut rng = ctx.rng(0xC15);
-    let n = ctx.share(45_000, 2_400_000);
+    let n = ctx.share(300_000, 6_000_000);
     for i in 0..n {
         if ctx.out_of_time() {
             ctx.report.inconclusive.push(format!("workload cut at {} of {}", i, n));
